@@ -178,7 +178,7 @@ func OpenStoreRoots(env *Env, cfg Config, roots []cid.Cid) (st Store, err error)
 // swStore: storage.NewWritable over a WriterAt (write-only CAR).
 type swStore struct{ w storage.WritableCar }
 
-func (s *swStore) Put(b Blk) error { return s.w.Put(bg, b.Cid.KeyString(), b.Data) }
+func (s *swStore) Put(b Blk) error { return s.w.Put(putCtx, b.Cid.KeyString(), b.Data) }
 func (s *swStore) PutMany(bs []Blk) error {
 	for _, b := range bs {
 		if err := s.Put(b); err != nil {
@@ -225,6 +225,18 @@ type rwStore struct{ rw *blockstore.ReadWrite }
 
 var bg = context.Background()
 
+// putCtx is the context writes are called with. A run may make it an already cancelled one: the
+// stores do not promise anything about contexts, so a write may then be refused before it starts
+// (context.Canceled, nothing written) or go ahead as usual - but whatever it does with the writer must
+// leave the store as consistent as without it.
+var putCtx = bg
+
+func cancelledCtx() context.Context {
+	c, cancel := context.WithCancel(context.Background())
+	cancel()
+	return c
+}
+
 func toBlock(b Blk) blocks.Block {
 	blk, err := blocks.NewBlockWithCid(b.Data, b.Cid)
 	if err != nil {
@@ -233,13 +245,13 @@ func toBlock(b Blk) blocks.Block {
 	return blk
 }
 
-func (s *rwStore) Put(b Blk) error { return s.rw.Put(bg, toBlock(b)) }
+func (s *rwStore) Put(b Blk) error { return s.rw.Put(putCtx, toBlock(b)) }
 func (s *rwStore) PutMany(bs []Blk) error {
 	x := make([]blocks.Block, len(bs))
 	for i, b := range bs {
 		x[i] = toBlock(b)
 	}
-	return s.rw.PutMany(bg, x)
+	return s.rw.PutMany(putCtx, x)
 }
 func (s *rwStore) Has(c cid.Cid) (bool, error) { return s.rw.Has(bg, c) }
 func (s *rwStore) Get(c cid.Cid) ([]byte, error) {
@@ -279,7 +291,7 @@ func (s *rwStore) Index() index.Index        { return s.rw.Index() }
 
 type scStore struct{ sc *storage.StorageCar }
 
-func (s *scStore) Put(b Blk) error { return s.sc.Put(bg, b.Cid.KeyString(), b.Data) }
+func (s *scStore) Put(b Blk) error { return s.sc.Put(putCtx, b.Cid.KeyString(), b.Data) }
 func (s *scStore) PutMany(bs []Blk) error {
 	for _, b := range bs {
 		if err := s.Put(b); err != nil {
